@@ -126,6 +126,11 @@ def gen_component(rng, cname, variant, with_cnt):
     h = rng.choice(cands)
     anc = [a for a in hn if a == h or h in reach(helpers[a])]
     helpers[h].calls.append((rng.choice(anc), False))          # back edge (a self-call when anc == [h])
+    # the back edge can make helpers reachable from further blocks: who may write (single owner) is decided on the final graph,
+    # so that the call cycle stays the only defect of the design (a helper writing with the other block kind's operator is rejected too)
+    owners = {n: [] for n in hn}
+    for b in bl:
+      for n in reach(b): owners[n].append(b)
   # signals: sources first, then one group per writer; comb blocks read only sources, ff-written signals and the groups of
   # comb blocks of lower dataflow rank (keeps the design schedulable)
   nsig = rng.choice([2, 3]); sources = list(range(nsig))
@@ -178,12 +183,17 @@ def gen_component(rng, cname, variant, with_cnt):
   if variant == 'multi':
     shared = [n for n in hn if sum(o.kind == 'update' for o in owners[n]) >= 2 and all(o.kind == 'update' for o in owners[n])]
     if not shared:
-      a, b = [x for x in bl][:2]
-      a.kind = b.kind = 'update'; a.op = b.op = '@='
-      for x in (a, b):
-        if hn[-1] not in [c for c, _ in x.calls]: x.calls.append((hn[-1], False))
-      shared = [hn[-1]]
-    helpers[shared[0]].writes.append((fresh(), 0, NB)); helpers[shared[0]].op = '@='
+      # share the last helper between two comb blocks -- only when that keeps every block that reaches it (and everything it
+      # reaches) a comb block: /repo rejects an '@=' helper reached from an update_ff block (fix R13 helper-op-rule); block kinds
+      # are not changed here (the read pools above depend on them)
+      cb = [x for x in bl if x.kind == 'update']
+      down = {hn[-1]} | reach(helpers[hn[-1]])
+      if len(cb) >= 2 and all(o.kind == 'update' for n in down for o in owners[n]) and not any(helpers[n].writes and helpers[n].op != '@=' for n in down):
+        for x in cb[:2]:
+          if hn[-1] not in [c for c, _ in x.calls]: x.calls.append((hn[-1], False))
+        shared = [hn[-1]]
+    if shared:
+      helpers[shared[0]].writes.append((fresh(), 0, NB)); helpers[shared[0]].op = '@='
   if with_cnt:
     cand = list(helpers.values()) + [b for b in bl if b.kind == 'update']
     for f in rng.sample(cand, min(len(cand), rng.choice([1, 2]))): f.method = True
